@@ -15,7 +15,8 @@ ENCODED = ["elexmodel.handlers.data.Featurizer:Featurizer.__init__", "elexmodel.
            "elexmodel.handlers.data.Featurizer:Featurizer.filter_to_active_features",
            "elexmodel.handlers.data.Featurizer:Featurizer.generate_holdout_data",
            "elexmodel.models.ConformalElectionModel:ConformalElectionModel.get_unit_predictions",
-           "elexmodel.models.ConformalElectionModel:ConformalElectionModel.get_unit_prediction_interval_bounds"]
+           "elexmodel.models.ConformalElectionModel:ConformalElectionModel.get_unit_prediction_interval_bounds",
+           "elexmodel.models.BootstrapElectionModel:BootstrapElectionModel.compute_bootstrap_errors"]
 STUBS = ["none in the featurizer cases; the end-to-end cases use the pipeline stubs (the quantile-regression stub records the matrices)"]
 ASSUMES = ["continuous feature values are arbitrary reals; categorical levels come from a 3-letter alphabet per fixed effect",
            "an intercept is always added (the only mode any estimator uses)"]
@@ -42,6 +43,7 @@ def cases(tier):
         out.append(dict(name="separate_states_%s" % ("+".join(sep) or "none"), kind="states", sep=sep, weight=5))
     for pi, nrep in (("nonparametric", 6), ("gaussian", 7)):
         out.append(dict(name="pipeline_%s" % pi[:2], kind="pipeline", pi=pi, nrep=nrep, weight=30))
+    out.append(dict(name="bootstrap_matrices", kind="bs", weight=20))
     if tier == "thorough":
         for first in LEVELS:
             out.append(dict(name="fe_A_all_4fit_first_%s" % first, kind="featurizer", sel="all", first=first, n_fit=4, n_hold=2,
@@ -49,7 +51,43 @@ def cases(tier):
     return out
 
 
+def run_bs(ctx, case):
+    """the bootstrap estimator's matrices: the real compute_bootstrap_errors (numeric leaves stubbed) fits and predicts with
+    matrices of the same width, intercept first, baseline margin next, also when an outstanding unit has an unseen level"""
+    from elexmodel.models.BootstrapElectionModel import BootstrapElectionModel as BEM
+    from . import c06
+
+    lv_non = [LEVELS[ctx.choose("level_n0", 3)], ["a", "b", "zz"][ctx.choose("level_n1", 3)]]
+    L = c06.LeafStubs(ctx).install()
+    try:
+        m = BEM({"features": ["baseline_normalized_margin"], "fixed_effects": {"A": "all"}, "B": 2, "lambda_": 1.0, "strata": ["S"]})
+
+        def frame(n, tag, rep, levels):
+            d = pd.DataFrame({"postal_code": ["AA"] * n, "geographic_unit_fips": ["%s%d" % (tag, i) for i in range(n)], "A": levels,
+                              "S": ["s1"] * n, "baseline_normalized_margin": [0.1 * (i + 1) - 0.2 for i in range(n)],
+                              "reporting": [rep] * n, "unit_category": ["expected"] * n, "baseline_weights": [100.0 + i for i in range(n)],
+                              "results_normalized_margin": [0.05 * i for i in range(n)], "turnout_factor": [1.0 + 0.01 * i for i in range(n)],
+                              "percent_expected_vote": [100.0] * n if rep else [40.0 + 20 * i for i in range(n)]})
+            return d
+
+        rep = frame(4, "r", 1, ["a", "b", "a", "b"])
+        non = frame(2, "n", 0, lv_non)
+        unx = rep.iloc[0:0].copy()
+        m.compute_bootstrap_errors(rep, non, unx)
+    finally:
+        L.uninstall()
+    obl = [("the bootstrap fits were made", len(L.fit_widths) >= 2),
+           ("every prediction matrix has as many columns as the fitted ones", len(set(L.fit_widths + L.predict_widths)) == 1)]
+    x = L.fit_x[0]
+    obl.append(("first column of the fitted matrix is the intercept", all(float(v) == 1 for v in x[:, 0])))
+    obl.append(("second column is the baseline margin", [round(float(v), 6) for v in x[:, 1]] == [-0.1, 0.0, 0.1, 0.2]))
+    obl.append(("one dummy (level b; level a absorbed)", x.shape[1] == 3 and [float(v) for v in x[:, 2]] == [0, 1, 0, 1]))
+    return obl, {}
+
+
 def run(ctx, case):
+    if case["kind"] == "bs":
+        return run_bs(ctx, case)
     if case["kind"] == "featurizer":
         return run_featurizer(ctx, case)
     if case["kind"] == "states":
